@@ -29,7 +29,7 @@ var pktUniverse = func() []pkt {
 	for _, pr := range []string{"tcp", "udp", "icmp"} {
 		ports := []int{22, 25, 53, 80, 443}
 		if pr == "icmp" {
-			ports = []int{0}
+			ports = []int{0, 8} // ICMP types echo-reply, echo
 		}
 		for _, s := range pktAddrs {
 			for _, d := range pktAddrs {
@@ -90,6 +90,16 @@ func (d *asaDev) lineMatches(body string, p pkt) (permit, hit bool) {
 	if len(rest) >= 2 && rest[0] == "eq" {
 		n, _ := strconv.Atoi(rest[1])
 		if n != p.port {
+			return permit, false
+		}
+	}
+	if proto == "icmp" && len(rest) >= 1 && rest[0] != "log" {
+		// ICMP type (canonical bodies carry the number)
+		t := rest[0]
+		if n, ok := icmpTypeNumbers[t]; ok {
+			t = n
+		}
+		if n, err := strconv.Atoi(t); err != nil || n != p.port {
 			return permit, false
 		}
 	}
